@@ -679,6 +679,20 @@ func (db *DB) searchAll(o Object, field, operator string, value interface{}, con
 		return &Search{db: db, err: err}
 	}
 
+	// arguments are validated as they are when searching an indexed
+	// field, not to behave differently when the field is not indexed
+	switch operator {
+	case "=", "!=", ">", ">=", "<", "<=":
+	case "~=":
+		if sval, ok := search.Value.(string); ok {
+			if _, err = regexp.Compile(sval); err != nil {
+				return &Search{db: db, err: err}
+			}
+		}
+	default:
+		return &Search{db: db, err: fmt.Errorf("%w %s", ErrUnkownSearchOperator, operator)}
+	}
+
 	if s, err = db.schema(o); err != nil {
 		return &Search{db: db, err: err}
 	}
